@@ -18,7 +18,7 @@ use text2num::{
 
 use crate::c02::gen_text;
 use crate::driver::{guarded, Check, RunResult, Stats, Violation};
-use crate::pools::{langs, threshold_of, Langs, LANG_CODES, POOLS, THRESHOLDS};
+use crate::pools::{threshold_of, Langs, LANG_CODES, POOLS, THRESHOLDS};
 use crate::rng::{Fp, Rng};
 use crate::sched::{Policy, Sched};
 use crate::stream::*;
@@ -242,7 +242,20 @@ pub fn gen_call(rng: &mut Rng) -> Call {
         }
         w.into_iter().map(|s| s.to_string()).collect()
     };
-    let op = match rng.below(10) {
+    let op = match rng.below(11) {
+        10 => {
+            // a single inflectable word: ordinal, compound or composite
+            let w = match rng.below(3) {
+                0 => rng.word(pool.ordinals).to_string(),
+                1 => gen_compound(rng, pool),
+                _ => if pool.composite.is_empty() { rng.word(pool.ordinals).to_string() } else { rng.word(pool.composite).to_string() },
+            };
+            if rng.chance(1, 2) {
+                Op::T2d { text: w }
+            } else {
+                Op::Rewrite { text: format!("{} {} {}", rng.word(pool.content), w, rng.word(pool.content)), thr }
+            }
+        }
         0 | 1 => {
             let n = rng.range(1, 6);
             Op::T2d { text: words(rng, n).join(" ") }
@@ -283,17 +296,146 @@ pub struct Corpus {
     pub expected: Vec<String>,
 }
 
+fn inflect(rng: &mut Rng, w: &str) -> String {
+    let mut chars: Vec<char> = w.chars().collect();
+    if chars.is_empty() {
+        return w.to_string();
+    }
+    let last = *chars.last().unwrap();
+    match rng.below(6) {
+        0 => {
+            // gender / number vowel
+            let repl = match last {
+                'o' => *rng.pick(&['a', 'i', 'e']),
+                'a' => *rng.pick(&['o', 'e']),
+                'e' => *rng.pick(&['i', 'a', 'o']),
+                'i' => *rng.pick(&['e', 'o']),
+                _ => last,
+            };
+            *chars.last_mut().unwrap() = repl;
+            chars.into_iter().collect()
+        }
+        1 => {
+            if last == 's' {
+                chars.pop();
+            } else {
+                chars.push('s');
+            }
+            chars.into_iter().collect()
+        }
+        2 => {
+            // German adjective endings on ordinals
+            if w.ends_with("te") {
+                format!("{w}{}", rng.pick(&['r', 'n', 's', 'm']))
+            } else if w.ends_with("ter") || w.ends_with("ten") || w.ends_with("tes") || w.ends_with("tem") {
+                chars.pop();
+                chars.into_iter().collect()
+            } else {
+                format!("{w}e")
+            }
+        }
+        3 => w.to_uppercase(),
+        4 => {
+            let mut c = w.chars();
+            match c.next() {
+                Some(f) => f.to_uppercase().collect::<String>() + c.as_str(),
+                None => String::new(),
+            }
+        }
+        _ => w.to_string(),
+    }
+}
+
+fn inflect_text(rng: &mut Rng, text: &str) -> String {
+    let words: Vec<&str> = text.split(' ').collect();
+    let cands: Vec<usize> = (0..words.len()).filter(|&i| words[i].chars().any(|c| c.is_alphabetic())).collect();
+    if cands.is_empty() {
+        return text.to_string();
+    }
+    // long words are the compounds and ordinals whose endings the lemmatizers strip
+    let long: Vec<usize> = cands.iter().copied().filter(|&i| words[i].chars().count() >= 8).collect();
+    let k = if !long.is_empty() && rng.chance(3, 4) { *rng.pick(&long) } else { *rng.pick(&cands) };
+    let mut out: Vec<String> = words.iter().map(|s| s.to_string()).collect();
+    out[k] = inflect(rng, words[k]);
+    out.join(" ")
+}
+
+fn inflect_toks(rng: &mut Rng, toks: &[TokSpec]) -> Vec<TokSpec> {
+    let mut t = toks.to_vec();
+    let cands: Vec<usize> = (0..t.len()).filter(|&i| !t[i].is_glue()).collect();
+    if let Some(&k) = cands.get(rng.below(cands.len().max(1))) {
+        let w = inflect(rng, &t[k].text);
+        t[k].lower = w.to_lowercase();
+        t[k].text = w;
+    }
+    t
+}
+
+/// A call related to `c`: one word inflected (gender, number, case ending, letter case), another
+/// threshold, the other access path (facade / concrete type), or an injected crash. Related calls
+/// are what a cache keyed too coarsely, or a buffer reused across calls, confuses.
+pub fn variant_of(rng: &mut Rng, c: &Call) -> Call {
+    let mut v = c.clone();
+    match rng.below(10) {
+        0 => v.concrete = !v.concrete,
+        1 => v.crash_at = if c.crash_at == 0 { rng.range(1, 20) as u64 } else { 0 },
+        2 => {
+            let t = (*rng.pick(&THRESHOLDS)).to_string();
+            match &mut v.op {
+                Op::Rewrite { thr, .. } | Op::Find { thr, .. } | Op::FindIter { thr, .. } | Op::RewriteStream { thr, .. } => *thr = t,
+                _ => v.concrete = !v.concrete,
+            }
+        }
+        _ => match &mut v.op {
+            Op::T2d { text } | Op::Rewrite { text, .. } | Op::Annotate { text } | Op::Lookup { text, .. } => *text = inflect_text(rng, text),
+            Op::Find { toks, .. } | Op::FindIter { toks, .. } | Op::RewriteStream { toks, .. } => *toks = inflect_toks(rng, toks),
+            Op::Raw { words, .. } => {
+                let k = rng.below(words.len().max(1));
+                if let Some(w) = words.get_mut(k) {
+                    *w = inflect(rng, w).to_lowercase();
+                }
+            }
+        },
+    }
+    v
+}
+
+/// Corpus = families of related calls; `family_start[i]` is the index of the first member
+/// of the family call i belongs to.
 pub fn gen_corpus(seed: u64, n: usize) -> Vec<Call> {
     let mut rng = Rng::new(crate::rng::run_seed(seed, "C14-corpus", 0));
-    (0..n).map(|_| gen_call(&mut rng)).collect()
+    let mut out: Vec<Call> = Vec::with_capacity(n + 4);
+    while out.len() < n {
+        let base = gen_call(&mut rng);
+        let nvar = *rng.pick(&[0usize, 0, 1, 2, 3, 4]);
+        out.push(base.clone());
+        let mut prev = base;
+        for _ in 0..nvar {
+            // chains: a variant of a variant stays close to the base
+            let from_prev = rng.chance(1, 2);
+            let src = if from_prev { prev.clone() } else { out[out.len() - 1].clone() };
+            let v = variant_of(&mut rng, &src);
+            out.push(v.clone());
+            prev = v;
+        }
+    }
+    out.truncate(n);
+    out
 }
 
 /// Reference semantics: fresh interpreters for every single call, reverse order.
 pub fn reference_results(calls: &[Call]) -> Vec<String> {
     let mut out = vec![String::new(); calls.len()];
     for (i, c) in calls.iter().enumerate().rev() {
-        let fresh = Langs::new();
-        out[i] = exec_call(&fresh, c, false);
+        // a fresh OS thread per call: fresh thread-local state as well
+        out[i] = std::thread::scope(|s| {
+            s.spawn(|| {
+                let fresh = Langs::new();
+                exec_call(&fresh, c, false)
+            })
+            .join()
+            .unwrap_or_else(|_| "PANIC".to_string())
+        });
     }
     out
 }
@@ -325,7 +467,11 @@ pub fn run_case(case: &Case) -> Exec {
     let results: Arc<Mutex<Vec<Vec<(usize, String)>>>> = Arc::new(Mutex::new(vec![vec![]; n]));
     let expected_steps: u64 = case.threads.iter().map(|t| t.len() as u64 * 20).sum();
     let sched = Sched::new(n, Policy::from_code(case.policy), case.sched_seed, case.trace.clone(), expected_steps);
-    let ls = langs();
+    // one set of long-lived interpreters per run, created once and shared by all of the run's
+    // simulated threads and calls; a fresh set per run keeps runs independent of each other,
+    // so that a violation replays from its own case alone
+    let owned = Langs::new();
+    let ls = &owned;
     let mut fns: Vec<Box<dyn FnOnce() + Send + '_>> = vec![];
     for (ti, idxs) in case.threads.iter().enumerate() {
         let results = results.clone();
@@ -356,7 +502,16 @@ impl Check for C14 {
         let mut threads = vec![];
         // a few calls are deliberately repeated within and across threads
         let pool_size = rng.range(2, nthreads * per_thread);
-        let picks: Vec<usize> = (0..pool_size).map(|_| rng.below(self.corpus.calls.len())).collect();
+        // related calls (a base call and its variants) sit next to each other in the corpus:
+        // pick small neighbourhoods rather than isolated calls
+        let mut picks: Vec<usize> = vec![];
+        while picks.len() < pool_size {
+            let at = rng.below(self.corpus.calls.len());
+            let width = *rng.pick(&[1usize, 1, 2, 3, 4]);
+            for j in 0..width {
+                picks.push((at + j) % self.corpus.calls.len());
+            }
+        }
         for p in &picks {
             calls.push(self.corpus.calls[*p].clone());
             expected.push(self.corpus.expected[*p].clone());
